@@ -323,7 +323,7 @@ impl Property for C02 {
         format!(
             "every event program (forest) with 1..={} events (per configuration: third number), delays from {{0,1,t-1,t,t+1,Y,Y+1}}, x start time in {{0,5,Y+1}} x (n,t,max events) in {:?}, run on the real Runtime; \
              per program: one plain run + a probe add_event(now - d), d in {{0 (must be accepted), 1, t, start}}, placed before run and inside every handler; for programs of up to 3 (quick) / 4 (thorough) events also: start, dispatch_n_events(k) for every k, add_event from outside at every time around the program's timestamps that is not in the past of the paused runtime, run to the end (clock and timestamps must stay right); \
-             plus, at the network level, messages injected through Runtime::add_message_onto / handle_message_on at 8 offsets around the reported time (before run and while paused, 4 start times): past ones must be rejected, the others handled at exactly their time; a case is one (program, start, config, probe placement) and all are distinct by construction; non-trivial = at least 2 events or a probe",
+             plus one forced two-thread schedule (a Builder::build in another thread waits for the simulation lock while a simulation is paused between two steps: the paused clock must not move, later handlers still observe their own timestamps, the visitor gets its own start time); plus, at the network level, messages injected through Runtime::add_message_onto / handle_message_on at 8 offsets around the reported time (before run and while paused, 4 start times): past ones must be rejected, the others handled at exactly their time; a case is one (program, start, config, probe placement) and all are distinct by construction; non-trivial = at least 2 events or a probe",
             tier.pick(4, 5),
             cfgs(tier)
         )
@@ -335,9 +335,19 @@ impl Property for C02 {
         ]
     }
     fn required_features(&self, _tier: Tier) -> Vec<&'static str> {
-        vec!["plain_run", "probe_past_before_run", "probe_past_in_handler", "probe_now_in_handler", "program_with_zero_delay_child", "program_spanning_a_year", "external_add_while_paused", "net_injection_into_the_past", "net_injection_at_or_after_now"]
+        vec!["plain_run", "probe_past_before_run", "probe_past_in_handler", "probe_now_in_handler", "program_with_zero_delay_child", "program_spanning_a_year", "external_add_while_paused", "net_injection_into_the_past", "net_injection_at_or_after_now", "builder_waiting_in_another_thread"]
     }
     fn explore(&self, ctx: &mut Ctx) {
+        if ctx.is_first_shard() {
+            // the one interleaving another thread can add: a builder that waits for the simulation lock
+            ctx.out.evaluations += 1;
+            ctx.hit("builder_waiting_in_another_thread");
+            match quiet_catch(vcheck::threadlab::waiting_builder_probe) {
+                Ok(Ok(o)) => ctx.outcome(o),
+                Ok(Err(d)) => ctx.violation("violation", || json!({"probe": "waiting_builder"}), d),
+                Err(m) => ctx.violation("violation", || json!({"probe": "waiting_builder"}), format!("panicked: {m}")),
+            }
+        }
         // net level: injections through add_message_onto / handle_message_on
         for (n, t, _) in cfgs(ctx.tier) {
             let y = n as u64 * t;
@@ -457,6 +467,9 @@ impl Property for C02 {
         }
     }
     fn replay(&self, case: &Value) -> Result<(), String> {
+        if case.get("probe").and_then(Value::as_str) == Some("waiting_builder") {
+            return quiet_catch(vcheck::threadlab::waiting_builder_probe).map_err(|m| format!("panicked: {m}"))?.map(|_| ());
+        }
         if case.get("net_probe").is_some() {
             return netprobe::run(netprobe::NetCase {
                 n: case["n"].as_u64().unwrap() as usize,
